@@ -5,6 +5,9 @@ from . import pv
 from .pv import PV, SInt, SBool, SStr, SAny, VList, VDict, VSet, VObj, VSeqIter, VComp, Unsupported
 
 
+text_filter = z3.Function('text_filter', z3.StringSort(), z3.StringSort(), z3.StringSort())
+
+
 class Sh:
     def __init__(self, kind, *a, **k):
         self.kind, self.a, self.k = kind, a, k
@@ -68,6 +71,11 @@ def OneOf(*shapes):
 def Callback(returns=None, raises='Exception'):
     """user-supplied callable: returns an unconstrained value or raises an arbitrary exception"""
     return Sh('callback', returns, raises)
+
+
+def TextFilter():
+    """the textFilter callable of the code generators: an uninterpreted function of (kind, text)"""
+    return Sh('textfilter')
 
 
 def StrObj(cls, **fields):
@@ -147,6 +155,10 @@ def build(sh, it, hint='v'):
             it_.ctx.ghost['cb_last_args'] = tuple(args)
             return build(ret_sh, it_, hint + '.ret') if ret_sh is not None else it_.fresh_any(hint + '.ret')
         return pv.VBuiltin('callback:' + hint, call)
+    if k == 'textfilter':
+        def tf(it_, args, kwargs):
+            return SStr(text_filter(pv.as_term_str(args[0]), pv.as_term_str(args[1])))
+        return pv.VBuiltin('textFilter', tf)
     if k == 'opt':
         if ctx.choose(2, 'opt:' + hint) == 0:
             return None
@@ -177,7 +189,7 @@ class Contract:
     def __init__(self, id, file, func, serves, params, requires=(), ensures=None, raises=None, assigns=(),
                  loops=None, inline=(), let=None, returns=None, ghost=None, notes=(), cases=None,
                  trusted=False, pure=False, setup=None, replay=None, exc_fields=None, defs=None,
-                 at_return=None, known=None):
+                 at_return=None, known=None, axioms=None):
         self.id, self.file, self.func, self.serves = id, file, func, list(serves)
         self.params = dict(params)
         self.requires = list(requires)
@@ -199,12 +211,13 @@ class Contract:
         self.defs = dict(defs or {})   # user-defined spec predicates: name -> 'lambda ...'
         self.at_return = dict(at_return or {})   # return ordinal -> {name: clause over locals}
         self.known = dict(known or {})  # obligation name -> predicate (history) excluded by a known finding
+        self.axioms = list(axioms or [])   # defining equations of spec functions: assumed here and at call sites
 
     def variant(self, name, **over):
         c = Contract(self.id + '[' + name + ']', self.file, self.func, self.serves, self.params,
                      self.requires, self.ensures, self.raises, self.assigns, self.loops, self.inline, self.let,
                      self.returns, self.ghost, self.notes, None, self.trusted, self.pure, self.setup, self.replay,
-                     self.exc_fields, self.defs, self.at_return, self.known)
+                     self.exc_fields, self.defs, self.at_return, self.known, self.axioms)
         for k, v in over.items():
             if k == 'params':
                 c.params = dict(self.params)
